@@ -6,7 +6,7 @@
 //! The same for two unrelated live instances.
 
 use crate::common::*;
-use crate::ensure;
+use crate::{ensure, pick};
 use vp_base::obj::*;
 use vp_base::tape::{self, Tape};
 
@@ -79,7 +79,7 @@ pub fn check(ctx: &Ctx, t: &mut Tape<'_>, r: &mut Report) -> CheckResult {
     if family == 4 {
         return cts(ctx, t, r);
     }
-    let suite = ctx.pick_suite(t, |_| true);
+    let suite = pick!(ctx, t, r, |_| true);
     let bs = suite.info.bs;
     let par = suite.info.par;
     let key = gen_key(t, suite);
@@ -236,7 +236,7 @@ pub fn check(ctx: &Ctx, t: &mut Tape<'_>, r: &mut Report) -> CheckResult {
 }
 
 fn cts(ctx: &Ctx, t: &mut Tape<'_>, r: &mut Report) -> CheckResult {
-    let suite = ctx.pick_suite(t, |s| !s.cts.is_empty());
+    let suite = pick!(ctx, t, r, |s| s.has_cts());
     let v = CtsVariant::ALL[t.idx(6)];
     let f = suite.cts(v).unwrap();
     let bs = suite.info.bs;
